@@ -305,8 +305,12 @@ def panic_rule(rep, prog, cfg, res):
     rule = "C08.no-panic"
     cg = callgraph(prog)
     roots = [f.id for f in res["fns"]]
-    for n in ("mpd_client::client::Client::do_send", "mpd_client::client::Client::raw_command", "mpd_client::client::Client::raw_command_list",
-              "mpd_client::client::do_connect", "mpd_client::client::Client::connect", "mpd_client::client::Client::is_connection_closed",
+    # private helpers are found by what they do: the handshake spawns the loop, the request path creates the oneshot channel
+    for x in prog.bodies.values():
+        if x.crate == "mpd_client" and any(any(n in ("tokio::task::spawn::spawn", "tokio::sync::oneshot::channel") for n in callee_names(t)) for _, t in x.calls()):
+            roots.append(prog.bodies.get(x.root, x).id)
+    for n in ("mpd_client::client::Client::raw_command", "mpd_client::client::Client::raw_command_list",
+              "mpd_client::client::Client::connect", "mpd_client::client::Client::is_connection_closed",
               "mpd_client::client::ConnectionEvents::next"):
         bs = body_by_name(prog, n)
         if len(bs) != 1:
@@ -315,20 +319,19 @@ def panic_rule(rep, prog, cfg, res):
         roots.append(bs[0].id)
     sites, R, nb, nblocks = panics.inventory(prog, cg, roots)
     sites = [s for s in sites if s.body.crate == "mpd_client" or s.fn == "mpd_protocol::response::Response::into_single_frame"]
-    used = {}
+    sites = [s for s in sites if not any(w in s.fn for w in ("responses::", "commands::", "tag::", "filter::"))]   # typed layer: C12 / C15
+    am = panics.AuditMatcher(AUDITED, sites)
     for s in sites:
-        used[s.key] = used.get(s.key, 0) + 1
-        aud = AUDITED.get(s.key)
-        inst = "%s/%s" % (cfg, s.key)
-        if "responses::" in s.fn or "commands::" in s.fn or "tag::" in s.fn or "filter::" in s.fn:
-            continue    # typed layer: C12 / C15
-        if aud is not None and used[s.key] <= aud[0]:
+        aud, k = am.lookup(s)
+        inst = "%s/%s" % (cfg, k)
+        if aud is not None:
             rep.ok(rule, inst, detail={"where": s.where, "audited": aud[1]})
         else:
             rep.fail(rule, inst, s.where, "unaudited panic-capable construct `%s` in %s: a panic kills the loop task or the caller instead of resolving requests with an error" % (s.kind, s.fn))
     rep.count("panic_sites_" + cfg, len(sites))
     # both channel failures map to ConnectionClosed
-    b = logic_body(prog, "mpd_client::client::Client::do_send", {"tokio::sync::mpsc::unbounded::UnboundedSender::send"})
+    cands = [x for x in prog.bodies.values() if x.crate == "mpd_client" and any("tokio::sync::oneshot::channel" in callee_names(t) for _, t in x.calls())]
+    b = cands[0] if len(cands) == 1 else None
     if b is None:
         rep.fail(rule, cfg + "/do_send", "client/mod.rs", "Client::do_send not found")
         return
